@@ -6,10 +6,12 @@ import (
 	"fmt"
 	"os"
 	"path/filepath"
+	"reflect"
 	"sync"
 	"testing"
 	"testing/synctest"
 
+	"github.com/vimeo/dials"
 	"github.com/vimeo/dials/ez"
 	"pgregory.net/rapid"
 
@@ -45,6 +47,9 @@ type C09EzCase struct {
 	DefaultLimit int  `json:"default_limit"` // negative: the defaults alone do not verify
 	FileLimit    *int `json:"file_limit,omitempty"`
 	FileCount    *int `json:"file_count,omitempty"`
+	// WatchFlag: the flag layer is a WATCHING source (Params.FlagSource) that
+	// keeps reporting after the entry point returned
+	WatchFlag bool `json:"watch_flag,omitempty"`
 }
 
 func genC09Ez(t *rapid.T) C09EzCase {
@@ -59,6 +64,7 @@ func genC09Ez(t *rapid.T) C09EzCase {
 			c.FileCount = &v
 		}
 	}
+	c.WatchFlag = rapid.Bool().Draw(t, "watch_flag")
 	return c
 }
 
@@ -112,8 +118,13 @@ func runC09Ez(c C09EzCase) (verdict vrt.Verdict) {
 		var mu sync.Mutex
 		newCalls, errCalls := 0, 0
 		var firstNew string
+		var flagSrc dials.Source = &fake.Static{} // a flag layer that sets nothing (the real one registers process-global flags)
+		flagW := &fake.Watcher{}
+		if c.WatchFlag {
+			flagSrc = flagW
+		}
 		params := ez.Params[EzVCfg]{
-			FlagSource: &fake.Static{}, // a flag layer that sets nothing (the real one registers process-global flags)
+			FlagSource: flagSrc,
 			OnNewConfig: func(_ context.Context, o, n *EzVCfg) {
 				mu.Lock()
 				newCalls++
@@ -163,12 +174,52 @@ func runC09Ez(c C09EzCase) (verdict vrt.Verdict) {
 		mu.Unlock()
 		if nc != 0 || ec != 0 {
 			fail("the global callbacks were called during start-up (OnNewConfig %d, OnWatchedError %d; first: %s): they must be withheld while the delay is in force", nc, ec, fn)
+			return
+		}
+		if !c.WatchFlag {
+			return
+		}
+		// the entry point enabled verification: from now on every re-stack is verified and announced
+		pt := flagW.Type.Type()
+		mk := func(limit, count int) reflect.Value {
+			v := reflect.New(pt).Elem()
+			v.FieldByName("VfcLimit").Set(reflect.ValueOf(&limit))
+			v.FieldByName("VfcCount").Set(reflect.ValueOf(&count))
+			return v
+		}
+		before := d.View()
+		if rerr := flagW.Args.BlockingReportNewValue(ctx, mk(-5, 70)); !errors.Is(rerr, ErrInvalid) {
+			fail("after the ez entry point returned (file=%v), a watching flag source reported a value that does not verify and the blocking report returned %v, want the verifier's error: verification was not switched on", c.HasFile, rerr)
+			return
+		}
+		synctest.Wait()
+		if d.View() != before {
+			fail("a re-stack that does not verify was installed after the ez entry point returned")
+			return
+		}
+		mu.Lock()
+		nc, ec = newCalls, errCalls
+		mu.Unlock()
+		if ec != 1 || nc != 0 {
+			fail("after the ez entry point returned, a rejected re-stack reached OnWatchedError %d time(s) and OnNewConfig %d time(s), want 1 and 0: global callbacks are withheld only while the delay is in force", ec, nc)
+			return
+		}
+		if rerr := flagW.Args.BlockingReportNewValue(ctx, mk(11, 71)); rerr != nil {
+			fail("a valid re-stack after the ez entry point returned failed: %v", rerr)
+			return
+		}
+		synctest.Wait()
+		mu.Lock()
+		nc = newCalls
+		mu.Unlock()
+		if v := d.View(); v.VfcLimit != 11 || v.VfcCount != 71 || nc != 1 {
+			fail("a valid re-stack after the ez entry point returned: view %+v, OnNewConfig called %d time(s), want limit=11 count=71 and 1 call", *v, nc)
 		}
 	})
 	if msg != "" {
 		return vrt.KeyedViolationf("ez-delay", "%s", msg)
 	}
-	return vrt.OK(c.HasFile && (c.FileLimit != nil || c.DefaultLimit < 0), fmt.Sprintf("file=%v", c.HasFile), fmt.Sprintf("defaults-verify=%v", c.DefaultLimit >= 0), fmt.Sprintf("complete-verifies=%v", wantLimit >= 0))
+	return vrt.OK(c.HasFile && (c.FileLimit != nil || c.DefaultLimit < 0), fmt.Sprintf("file=%v", c.HasFile), fmt.Sprintf("defaults-verify=%v", c.DefaultLimit >= 0), fmt.Sprintf("complete-verifies=%v", wantLimit >= 0), fmt.Sprintf("watching-flag-source=%v", c.WatchFlag))
 }
 
 func TestC09Ez(t *testing.T) {
@@ -176,7 +227,7 @@ func TestC09Ez(t *testing.T) {
 	vrt.Check(t, vrt.Prop[C09EzCase]{
 		ID: "C09", Name: "ez",
 		Rule: "the ez JSON entry point (which always uses delayed verification with suppressed global callbacks) without file watching, over a config with a Verify method: with / without a config file, defaults that verify or not, a file that repairs, breaks or leaves the limit; inside a synctest bubble; " +
-			"oracle: every Verify call sees the complete configuration (never the file-less intermediate one), the entry point fails iff the complete configuration does not verify, and no global callback runs during start-up; " +
+			"oracle: every Verify call sees the complete configuration (never the file-less intermediate one), the entry point fails iff the complete configuration does not verify, and no global callback runs during start-up; when the flag layer is a watching source, its later re-stacks are verified (a value that does not verify is rejected with the verifier's error and reaches OnWatchedError, a valid one is installed and announced); " +
 			"non-trivial = a file that sets the verified field, or defaults that do not verify on their own; distinct = distinct case JSON",
 		Assumptions: []string{"the flag layer is a source that sets nothing (the default one registers process-global flags once)", "no environment variable is named VFC_*"},
 		Gen:         genC09Ez, Run: runC09Ez,
